@@ -230,6 +230,130 @@ def oracle_loadback(ck, rng):
                          key={"site": "loadback", "exact": exact, "even": any(s % 2 == 0 for s in shape), "template": via}, oracle="load_back_template", measured=err)
 
 
+def oracle_surface(ck, rng):
+    """the other simulation entry points, each tied to `simulate` by a relation that follows from the property:
+    coloured simulation = sum over molecules of colour x alpha x (template - min)/(max - min) at the molecule's pose (linear in the
+    grey simulation of each molecule alone when the template's minimum is 0); projection with the standard axes = sum over z of the
+    3-D simulation; projection onto any plane = standard projection of the rigidly rotated scene (projection commutes with a world
+    rotation about the centre); the tilt series is that projection per angle; bookkeeping of add_molecules"""
+    import polars as pl
+    from acryo import TomogramSimulator, Molecules
+    from scipy.spatial.transform import Rotation
+    from scipy import ndimage as ndi
+    fails = []
+
+    def expect(cond, site, what, inp=None):
+        if not cond:
+            fails.append((site, what, inp))
+
+    def raises(fn, *exc):
+        try:
+            fn()
+        except exc:
+            return True
+        except Exception:
+            return False
+        return False
+
+    nit = 3 if ck.tier == "quick" else 20
+    R24 = rot24()
+    for it in range(nit):
+        scale = float(rng.choice([1.0, 0.5, 2.0]))
+        N = (20, 22, 24)
+        tmpl = np.zeros((5, 5, 5), np.float32)
+        tmpl[1:4, 2, 1:3] = rng.integers(1, 6, size=(3, 2)); tmpl[2, 1:4, 3] = rng.integers(1, 6, size=3)
+        nm = int(rng.integers(2, 5))
+        pos = np.stack([rng.integers(6, n - 6, size=nm) for n in N], axis=1).astype(float)
+        ris = [int(x) for x in rng.integers(0, 24, size=nm)]
+        rot = Rotation.from_matrix(np.stack([R24[r] for r in ris]).astype(float))
+        cols = rng.integers(0, 5, size=(nm, 4)).astype(np.float32) / 4.0
+        info = {"iteration": it, "scale": scale, "positions_px": pos.tolist(), "rotations": ris, "colours": cols.tolist()}
+        try:
+            mol = Molecules(pos * scale, rot, features={"r": cols[:, 0], "g": cols[:, 1], "b": cols[:, 2], "a": cols[:, 3]})
+            order = int(rng.choice([0, 1]))
+            sim = TomogramSimulator(order=order, scale=scale).add_molecules(mol, tmpl, name="m")
+            alone = [TomogramSimulator(order=order, scale=scale).add_molecules(mol.subset([i]), tmpl).simulate(N) for i in range(nm)]
+            grey = sim.simulate(N)
+            expect(np.allclose(grey, sum(alone), atol=1e-4), "additivity", "the simulation is not the sum of its molecules simulated alone", info)
+            tmax = float(tmpl.max())
+            for label, cmap, alpha in (
+                    ("callable rgb", lambda df: (df["r"][0], df["g"][0], df["b"][0]), None),
+                    ("callable rgba", lambda df: (df["r"][0], df["g"][0], df["b"][0], df["a"][0]), cols[:, 3]),
+                    ("array rgb", cols[:, :3].copy(), None),
+                    ("array rgba", cols.copy(), cols[:, 3])):
+                out = sim.simulate(N, colormap=cmap)
+                expect(out.shape == (3,) + N, "colour", f"coloured simulation ({label}) has shape {out.shape}", info)
+                for c in range(3):
+                    want = sum(alone[i] / tmax * cols[i, c] * (1.0 if alpha is None else alpha[i]) for i in range(nm))
+                    expect(np.allclose(out[c], want, atol=1e-4), "colour",
+                           f"coloured simulation ({label}), channel {c}: not colour x alpha x normalised template at each molecule (max err {np.abs(out[c] - want).max():.3g})", info)
+            two = TomogramSimulator(order=order, scale=scale).add_molecules(mol, tmpl, name="a").add_molecules(mol, tmpl, name="b")
+            expect(raises(lambda: two.simulate(N, colormap=cols[:, :3]), ValueError), "colour", "array colormap accepted with two components", info)
+            expect(raises(lambda: sim.simulate(N, colormap=cols[:, :2]), ValueError), "colour", "array colormap with 2 columns accepted", info)
+            expect(raises(lambda: sim.simulate(N[1:]), ValueError), "simulate-shape", "2-tuple shape accepted by simulate", info)
+            # add_molecules bookkeeping
+            expect(raises(lambda: sim.add_molecules(mol, tmpl, name="m"), ValueError), "add-molecules", "duplicate component name accepted", info)
+            expect(raises(lambda: sim.copy().add_molecules(mol, [[1.0]], name="x"), TypeError), "add-molecules", "a list accepted as template image", info)
+            ow = sim.copy().add_molecules(mol.subset([0]), (2 * tmpl).astype(np.float64), name="m", overwrite=True)
+            expect(np.allclose(ow.simulate(N), 2 * alone[0], atol=1e-4) and np.allclose(sim.simulate(N), grey, atol=1e-5), "add-molecules",
+                   "overwrite=True did not replace the component (or changed the simulator it was copied from)", info)
+            # projections (the projection code always interpolates at order 3, so it is compared with an order-3 simulator)
+            # the projection code cuts every rotated template to its own (y, x) box, so the density is kept inside the inscribed ball
+            blob = np.zeros((11, 11, 11), np.float32)
+            blob[3:8, 3:8, 3:8] = tmpl
+            blob = ndi.gaussian_filter(blob, 0.7).astype(np.float32)
+            s3 = TomogramSimulator(order=3, scale=scale).add_molecules(mol, blob, name="m")
+            vol = s3.simulate(N)
+            rc = (np.array(N, dtype=np.float64) - 1) / 2 * scale
+            std = s3.simulate_projection(N[1:], tuple(rc), xaxis=(0, 0, 1), yaxis=(0, 1, 0))
+            tol = 2e-3 * float(np.abs(vol.sum(axis=0)).max())
+            expect(std.shape == N[1:] and np.allclose(std, vol.sum(axis=0), atol=tol), "projection",
+                   f"projection along z with the standard axes differs from the z-sum of the simulated tomogram (max err {np.abs(std - vol.sum(axis=0)).max():.3g})", info)
+            expect(np.allclose(s3.simulate_projection(N[1:], tuple(rc), xaxis=(0, 0, 3.0), yaxis=(0, 0.5, 0)), std, atol=1e-5), "projection",
+                   "projection depends on the length of the axis vectors", info)
+            expect(raises(lambda: s3.simulate_projection(N[1:], tuple(rc), xaxis=(0, 0, 1), yaxis=(0, 1, 1)), ValueError), "projection",
+                   "non-orthogonal projection axes accepted", info)
+            from acryo.molecules._rotation import axes_to_rotator
+            sq = (N[1], N[1])
+            b0 = None
+            for gi in [int(x) for x in rng.permutation(np.arange(1, 24))[:3 if ck.tier == "quick" else 8]]:
+                G = R24[gi].astype(float)                   # zyx matrix whose rows are the plane normal n, its y axis and its x axis
+                n_, ey, ex = G[0], G[1], G[2]
+                # classification of the input only: planes for which the library's axes_to_rotator does not return the rotation taking
+                # (z, y) to (n, ey) are the C11 known finding (anti-parallel axes); they are reported under that known finding
+                helper = axes_to_rotator(n_, ey)
+                helper_ok = bool(np.allclose(helper.apply([1.0, 0, 0]), n_, atol=1e-6) and np.allclose(helper.apply([0, 1.0, 0]), ey, atol=1e-6))
+                molG = Molecules(rc + (pos * scale - rc) @ G.T, Rotation.from_matrix(G) * rot)
+                if not (np.allclose(molG.z, mol.z @ G.T, atol=1e-6) and np.allclose(molG.y, mol.y @ G.T, atol=1e-6)):
+                    raise AssertionError("harness: rotated scene is not the rotated molecules")
+                sG = TomogramSimulator(order=3, scale=scale).add_molecules(molG, blob, name="m")
+                a = s3.simulate_projection(sq, tuple(rc), xaxis=tuple(ex), yaxis=tuple(ey))
+                b = sG.simulate_projection(sq, tuple(rc), xaxis=(0, 0, 1), yaxis=(0, 1, 0))
+                if not np.allclose(a, b, atol=tol):
+                    ck.violation(what=f"projection onto the plane (x={ex.tolist()}, y={ey.tolist()}) differs from the standard projection of the scene rotated "
+                                      f"into that frame (max err {np.abs(a - b).max():.3g})", inp=dict(info, plane={"x": ex.tolist(), "y": ey.tolist()}),
+                                 key={"site": "surface-projection-direction", "axes_to_rotator_wrong": not helper_ok}, oracle="simulator_surface")
+            degs = [0.0, float(rng.choice([-40.0, 25.0, 60.0])), 90.0]
+            ts = s3.simulate_tilt_series(degs, N)
+            expect(ts.shape == (3,) + N[1:], "tilt-series", f"tilt series has shape {ts.shape}", info)
+            rc2 = (np.array(N, dtype=np.float32) / 2 - 0.5) * scale
+            for k_, dg in enumerate(degs):
+                rad = np.deg2rad(dg)
+                pr = s3.simulate_projection(N[1:], tuple(rc2), xaxis=(np.sin(rad), 0, np.cos(rad)), yaxis=(0, 1, 0))
+                expect(np.allclose(ts[k_], pr, atol=tol), "tilt-series", f"tilt {dg} deg is not the projection onto the plane tilted about y by that angle", info)
+            expect(np.allclose(ts[0], vol.sum(axis=0), atol=tol), "tilt-series", "tilt 0 is not the z-projection of the simulated tomogram", info)
+        except Exception as e:  # noqa
+            import traceback
+            fails.append(("raised", f"{type(e).__name__}: {e} at {traceback.format_exc().strip().splitlines()[-3].strip()}", info))
+    ck.oracle_count("simulator_surface", nit, nit)
+    seen = set()
+    for site, what, inp in fails:
+        if site in seen:
+            continue
+        seen.add(site)
+        ck.violation(what=what, inp=inp, key={"site": "surface-" + site}, oracle="simulator_surface")
+
+
 def run(ck: common.Check):
     ck.design_ref = "DESIGN.md §6 C14"
     ck.trusted_base = TB
@@ -242,6 +366,7 @@ def run(ck: common.Check):
     rng = np.random.default_rng(ck.seed + 1414)
     corr_sim(ck, rng)
     oracle_loadback(ck, rng)
+    oracle_surface(ck, np.random.default_rng(ck.seed + 14141))
 
 
 def replay(data):
